@@ -303,9 +303,9 @@ impl Matrix {
 
     fn prep_cands(kind: Kind) -> &'static [Prep] {
         match kind {
-            Kind::A => &[Prep::Fresh, Prep::Heap, Prep::Spare, Prep::Shrunk, Prep::Truncated, Prep::Pushed, Prep::Reserved, Prep::Popped, Prep::Conv(Kind::D), Prep::Masked, Prep::Summed],
-            Kind::D => &[Prep::Fresh, Prep::Spare, Prep::Shrunk, Prep::Truncated, Prep::Reserved, Prep::Pushed, Prep::Popped, Prep::Conv(Kind::F64x4), Prep::Masked, Prep::Summed],
-            _ => &[Prep::Fresh, Prep::Shrunk, Prep::Truncated, Prep::Pushed, Prep::Popped, Prep::Conv(Kind::D), Prep::Masked, Prep::Conv(Kind::F8x3), Prep::Summed],
+            Kind::A => &[Prep::Fresh, Prep::Heap, Prep::Spare, Prep::Shrunk, Prep::Truncated, Prep::Pushed, Prep::Reserved, Prep::Popped, Prep::Conv(Kind::D), Prep::Masked, Prep::Summed, Prep::Ored(Kind::D)],
+            Kind::D => &[Prep::Fresh, Prep::Spare, Prep::Shrunk, Prep::Truncated, Prep::Reserved, Prep::Pushed, Prep::Popped, Prep::Conv(Kind::F64x4), Prep::Masked, Prep::Summed, Prep::Ored(Kind::A)],
+            _ => &[Prep::Fresh, Prep::Shrunk, Prep::Truncated, Prep::Pushed, Prep::Popped, Prep::Conv(Kind::D), Prep::Masked, Prep::Conv(Kind::F8x3), Prep::Summed, Prep::Ored(Kind::D), Prep::Ored(Kind::F8x4)],
         }
     }
 
